@@ -888,6 +888,19 @@ func leftmost(root ast.Expr, target ast.Expr) bool {
 			e = x.X
 		case *ast.TypeAssertExpr:
 			e = x.X
+		case *ast.CompositeLit:
+			// the first element of a struct / slice literal is evaluated first
+			if len(x.Elts) == 0 {
+				return false
+			}
+			if kv, ok := x.Elts[0].(*ast.KeyValueExpr); ok {
+				if _, isField := kv.Key.(*ast.Ident); !isField {
+					return false
+				}
+				e = kv.Value
+			} else {
+				e = x.Elts[0]
+			}
 		case *ast.CallExpr:
 			// f(target, ...) with a plain function name, or target.m(...)
 			switch fun := ast.Unparen(x.Fun).(type) {
@@ -1688,6 +1701,58 @@ func (b *bodyBuilder) build(mode int, tmp func(int) string) (string, string) {
 		tail, _ = f.Body.List[n-1].(*ast.ReturnStmt)
 	}
 	var edits []posEdit
+	// a helper that builds its single result in one local and returns it at the end writes
+	// straight into the assigned variable (the local is renamed): `x := build()` reads like
+	// the loop it was extracted from
+	nrvo := false
+	if mode == modeTemps && b.declare != nil && b.nres == 1 && tail != nil && len(tail.Results) == 1 {
+		nret := 0
+		ast.Inspect(f.Body, func(n ast.Node) bool {
+			if _, ok := n.(*ast.FuncLit); ok {
+				return false
+			}
+			if _, ok := n.(*ast.ReturnStmt); ok {
+				nret++
+			}
+			return true
+		})
+		if id, ok := ast.Unparen(tail.Results[0]).(*ast.Ident); ok && nret == 1 && tmp(0) != "_" {
+			if v, ok := b.info.Uses[id].(*types.Var); ok && !v.IsField() && types.Identical(v.Type(), b.sig.Results().At(0).Type()) {
+				for _, st := range f.Body.List {
+					switch d := st.(type) {
+					case *ast.AssignStmt:
+						if d.Tok == token.DEFINE && len(d.Lhs) == 1 && len(d.Rhs) == 1 {
+							if did, ok := d.Lhs[0].(*ast.Ident); ok && b.info.Defs[did] == types.Object(v) {
+								edits = append(edits, posEdit{d.Pos(), d.End(), tmp(0) + " = " + b.render(d.Rhs[0].Pos(), d.Rhs[0].End(), nil)})
+								nrvo = true
+							}
+						}
+					case *ast.DeclStmt:
+						gd, _ := d.Decl.(*ast.GenDecl)
+						if gd == nil || gd.Tok != token.VAR || len(gd.Specs) != 1 {
+							continue
+						}
+						vs := gd.Specs[0].(*ast.ValueSpec)
+						if len(vs.Names) != 1 || b.info.Defs[vs.Names[0]] != types.Object(v) {
+							continue
+						}
+						switch {
+						case len(vs.Values) == 1:
+							edits = append(edits, posEdit{d.Pos(), d.End(), tmp(0) + " = " + b.render(vs.Values[0].Pos(), vs.Values[0].End(), nil)})
+							nrvo = true
+						case len(vs.Values) == 0 && b.declare[0]:
+							edits = append(edits, posEdit{d.Pos(), d.End(), ""})
+							nrvo = true
+						}
+					}
+				}
+				if nrvo {
+					b.subst[v] = tmp(0)
+					edits = append(edits, posEdit{tail.Pos(), tail.End(), ""})
+				}
+			}
+		}
+	}
 	var walk func(n ast.Node)
 	walk = func(root ast.Node) {
 		ast.Inspect(root, func(n ast.Node) bool {
@@ -1698,7 +1763,7 @@ func (b *bodyBuilder) build(mode int, tmp func(int) string) (string, string) {
 			if !ok {
 				return true
 			}
-			if mode == modeReturn {
+			if mode == modeReturn || nrvo {
 				return false
 			}
 			var res []string
